@@ -26,3 +26,4 @@ open Bpmn.Props.C05 Bpmn.Props.EngineCurrent
 #print axioms Bpmn.Props.EngineSteps.incl_step_holds
 #print axioms evalFlows_keys
 #print axioms evalFlows_length
+#print axioms evalFlows_true_kept
